@@ -13,14 +13,8 @@ import (
 // counting model. This part is sequential model-based testing; it rides along for free.
 func satisfierCrossCheck(c *ProcCase, cm *Node) string {
 	var el *schema.IntermediateCatchEvent
-	procs := c.defs.Processes()
-	for i := range *procs {
-		ces := (*procs)[i].IntermediateCatchEvents()
-		for j := range *ces {
-			if id, ok := (*ces)[j].Id(); ok && *id == cm.ID {
-				el = &(*ces)[j]
-			}
-		}
+	if found, ok := c.defs.FindBy(schema.ExactId(cm.ID)); ok {
+		el, _ = found.(*schema.IntermediateCatchEvent)
 	}
 	if el == nil {
 		return "catch element not found in the parsed definitions"
@@ -76,14 +70,8 @@ func satisfierCrossCheck(c *ProcCase, cm *Node) string {
 // event with several definitions always behaves like the parallel-multiple case.
 func throwSatisfierCrossCheck(c *ProcCase, cm *Node) string {
 	var el *schema.IntermediateThrowEvent
-	procs := c.defs.Processes()
-	for i := range *procs {
-		tes := (*procs)[i].IntermediateThrowEvents()
-		for j := range *tes {
-			if id, ok := (*tes)[j].Id(); ok && *id == "TH" {
-				el = &(*tes)[j]
-			}
-		}
+	if found, ok := c.defs.FindBy(schema.ExactId("TH")); ok {
+		el, _ = found.(*schema.IntermediateThrowEvent)
 	}
 	if el == nil {
 		return ""
